@@ -31,7 +31,7 @@ func init() {
 		mutant{Name: "benign-init-guard-with-isMethod", Prop: "C15", File: "interp/cfg.go", Old: "if n.child[1].ident == \"init\" && len(n.child[0].child) == 0 {", New: "if n.child[1].ident == \"init\" && !isMethod(n) {", Benign: true},
 		mutant{Name: "root-of-relative-imports-by-TrimPrefix", Prop: "C16", File: "interp/src.go", Old: "\t\tsubRPath := effectivePkg(rPath, importPath)\n", New: "\t\tsubRPath := effectivePkg(rPath, importPath)\n\t\tif isPathRelative(importPath) {\n\t\t\tsubRPath = strings.TrimPrefix(dir, filepath.Dir(interp.name)+string(filepath.Separator))\n\t\t}\n", Rule: "R16.6", Key: "importSrc/root-handed-to-the-imports#1"},
 		mutant{Name: "benign-root-of-relative-imports-by-filepath-Rel", Prop: "C16", File: "interp/src.go", Old: "\t\tsubRPath := effectivePkg(rPath, importPath)\n", New: "\t\tsubRPath := effectivePkg(rPath, importPath)\n\t\tif isPathRelative(importPath) {\n\t\t\tif rel, rerr := filepath.Rel(filepath.Dir(interp.name), dir); rerr == nil {\n\t\t\t\tsubRPath = rel\n\t\t\t}\n\t\t}\n", Benign: true},
-		mutant{Name: "only-the-first-group-of-build-lines", Prop: "C17", File: "interp/build.go", Old: "\t\t\tif !buildLineOk(ctx, line) {\n\t\t\t\treturn false, nil\n\t\t\t}\n\t\t}\n", New: "\t\t\tif !buildLineOk(ctx, line) {\n\t\t\t\treturn false, nil\n\t\t\t}\n\t\t}\n\t\tif strings.Contains(g.Text(), \"+build \") {\n\t\t\tbreak\n\t\t}\n", Rule: "R17.6", Key: "Interpreter.buildOk/group-loop#1"},
+		mutant{Name: "only-the-first-group-of-build-lines", Prop: "C17", File: "interp/build.go", Old: "\t\t\tif !buildLineOk(ctx, line) {\n\t\t\t\treturn false, nil\n\t\t\t}\n\t\t}\n", New: "\t\t\tif !buildLineOk(ctx, line) {\n\t\t\t\treturn false, nil\n\t\t\t}\n\t\t}\n\t\tif strings.Contains(g.Text(), \"+build \") {\n\t\t\tbreak\n\t\t}\n", Rule: "R17.6", Key: "Interpreter.buildOk/group-loop#2"},
 		mutant{Name: "loop-variable-copy-skipped-when-not-escaping", Prop: "C01", File: "interp/run.go", Old: "func loopVarKey(n *node) {\n\tixn := n.anc.anc.child[0]\n\tnext := getExec(n.tnext)\n", New: "func loopVarKey(n *node) {\n\tixn := n.anc.anc.child[0]\n\tnext := getExec(n.tnext)\n\tif len(n.anc.child) < 3 {\n\t\tn.exec = func(f *frame) bltn {\n\t\t\tf.data[n.findex].Set(f.data[ixn.findex])\n\t\t\treturn next\n\t\t}\n\t\treturn\n\t}\n", Rule: "R01.3", Key: "loopVarKey/fresh-copy"},
 		mutant{Name: "define-allocates-only-in-loops", Prop: "C01", File: "interp/run.go", Old: "\t\tcase n.kind == defineStmt:\n", New: "\t\tcase n.kind == defineStmt && isInLoop(n):\n", Also: [][3]string{{"interp/run.go", "func not(n *node) {", "func isInLoop(n *node) bool {\n\tfor a := n.anc; a != nil; a = a.anc {\n\t\tif a.kind == forStmt7 || a.kind == rangeStmt {\n\t\t\treturn true\n\t\t}\n\t}\n\treturn false\n}\n\nfunc not(n *node) {"}}, Rule: "R01.21", Key: "assign/new-variable#1"},
 		mutant{Name: "continue-branches-to-the-post-statement", Prop: "C01", File: "interp/cfg.go", Old: "\t\t\t\tn.tnext = sc.loopRestart\n", New: "\t\t\t\tn.tnext = sc.loopRestart.start\n", Rule: "R01.22", Key: "cfg/continue#1"},
@@ -579,5 +579,12 @@ func init() {
 		mutant{Name: "unix-tag-unknown-again", Prop: "C17", File: "interp/build.go", Old: "\tcase s == \"unix\" && unixOS[ctx.GOOS]:\n\t\tr = true\n", New: "", Rule: "R17.2", Key: "tag/unix"},
 		mutant{Name: "unix-systems-table-incomplete", Prop: "C17", File: "interp/build.go", Old: "\t\"hurd\":      true,\n\t\"illumos\":   true,\n\t\"ios\":       true,\n\t\"linux\":     true,\n", New: "\t\"illumos\":   true,\n\t\"ios\":       true,\n\t\"linux\":     true,\n", Rule: "R17.2", Key: "tag/unix/systems"},
 		mutant{Name: "implied-os-tags-unknown-again", Prop: "C17", File: "interp/build.go", Old: "\tcase s != \"\" && impliedOS[ctx.GOOS] == s:\n\t\t// The OS tag which is also satisfied for this GOOS, as in go/build.\n\t\tr = true\n", New: "", Rule: "R17.2", Key: "implied/android=>linux"},
+	)
+}
+
+func init() {
+	addMutants(
+		// D134 reverted
+		mutant{Name: "gobuild-line-ignored-again", Prop: "C17", File: "interp/build.go", Old: "\t// A //go:build line, if any, is the constraint of the file: the // +build lines are then ignored,\n\t// as in go/build.\n\tfor _, g := range f.Comments {\n\t\tfor _, c := range g.List {\n\t\t\tif !constraint.IsGoBuild(c.Text) {\n\t\t\t\tcontinue\n\t\t\t}\n\t\t\texpr, err := constraint.Parse(c.Text)\n\t\t\tif err != nil {\n\t\t\t\treturn false, err\n\t\t\t}\n\t\t\tif !expr.Eval(func(tag string) bool { return buildTagOk(ctx, tag) }) {\n\t\t\t\treturn false, nil\n\t\t\t}\n\t\t\tsetYaegiTags(ctx, f.Comments)\n\t\t\treturn true, nil\n\t\t}\n\t}\n", New: "", Also: [][3]string{{"interp/build.go", "\t\"go/build/constraint\"\n", ""}}, Rule: "R17.3", Key: "gobuild-lines"},
 	)
 }
